@@ -257,6 +257,9 @@ def main(argv):
     if argv and argv[0] == "selftest-determinism":
         import selftest
         return selftest.determinism(argv[1:])
+    if argv and argv[0] == "selftest-benign":
+        import selftest
+        return selftest.benign(argv[1:])
     if argv and argv[0] == "selftest-mutants":
         import selftest
         return selftest.mutants(argv[1:])
